@@ -3,6 +3,7 @@ package main
 import (
 	"fmt"
 	"go/types"
+	"sort"
 	"strings"
 
 	"golang.org/x/tools/go/ssa"
@@ -39,6 +40,9 @@ func bindCalls(p *Program) []*ssa.Call {
 			if callee := c.Call.StaticCallee(); callee != nil && callee.Name() == "Bind" && callee.Signature.Recv() != nil {
 				rt := callee.Signature.Recv().Type()
 				if types.Implements(rt, it) || types.Implements(types.NewPointer(rt), it) {
+					out = append(out, c)
+				} else if res := callee.Signature.Results(); res.Len() == 3 && isErrorType(res.At(2).Type()) && strings.HasSuffix(res.At(1).Type().String(), "rel.Scope") && InRepo(callee) {
+					// a Bind method with the pattern signature on a type that is not itself a Pattern (FallbackPattern)
 					out = append(out, c)
 				}
 			}
@@ -160,18 +164,83 @@ func ruleBindMergeDiscipline(p *Program, r *Report) {
 	}
 	it := pat.Underlying().(*types.Interface)
 	ord := map[string]int{}
-	for _, c := range bindCalls(p) {
+	// pattern-internal code: the Bind methods of pattern types and the package-local helpers they call statically
+	// (a merge step extracted into a named function is still a merge step of that pattern)
+	inPattern := map[*ssa.Function]bool{}
+	var work []*ssa.Function
+	for _, fn := range p.RepoFns {
+		if fn.Parent() != nil || fn.Name() != "Bind" || fn.Signature.Recv() == nil {
+			continue
+		}
+		rt := fn.Signature.Recv().Type()
+		if types.Implements(rt, it) || types.Implements(types.NewPointer(rt), it) {
+			inPattern[fn] = true
+			work = append(work, fn)
+		}
+	}
+	for len(work) > 0 {
+		fn := work[0]
+		work = work[1:]
+		fs := append([]*ssa.Function{fn}, Closures(fn)...)
+		for _, f := range fs {
+			ForEachInstr(f, func(ins ssa.Instruction) {
+				c, ok := ins.(ssa.CallInstruction)
+				if !ok {
+					return
+				}
+				g := c.Common().StaticCallee()
+				if g == nil || g.Pkg != fn.Pkg || g.Blocks == nil || inPattern[g] || g.Name() == "Eval" || g.Name() == "Bind" {
+					return
+				}
+				if rc := g.Signature.Recv(); rc != nil && strings.HasSuffix(rc.Type().String(), "rel.Scope") {
+					return
+				}
+				inPattern[g] = true
+				work = append(work, g)
+			})
+		}
+	}
+	{
+		var ns []string
+		for f := range inPattern {
+			ns = append(ns, FnName(f))
+		}
+		sort.Strings(ns)
+		r.Notes = append(r.Notes, "pattern-internal functions: "+strings.Join(ns, " "))
+	}
+	// scope producers: Bind calls, and calls of pattern-internal helpers that hand back (…, Scope, error)
+	producers := bindCalls(p)
+	isProducer := map[*ssa.Call]bool{}
+	for _, c := range producers {
+		isProducer[c] = true
+	}
+	for fn := range inPattern {
+		for _, f := range append([]*ssa.Function{fn}, Closures(fn)...) {
+			ForEachInstr(f, func(ins ssa.Instruction) {
+				c, ok := ins.(*ssa.Call)
+				if !ok || isProducer[c] {
+					return
+				}
+				g := c.Call.StaticCallee()
+				if g == nil || !inPattern[g] {
+					return
+				}
+				res := g.Signature.Results()
+				if res.Len() >= 2 && isErrorType(res.At(res.Len()-1).Type()) && strings.HasSuffix(res.At(res.Len()-2).Type().String(), "rel.Scope") {
+					isProducer[c] = true
+					producers = append(producers, c)
+				}
+			})
+		}
+	}
+	sort.Slice(producers, func(i, j int) bool { return producers[i].Pos() < producers[j].Pos() })
+	for _, c := range producers {
 		fn := c.Parent()
 		top := fn
 		for top.Parent() != nil {
 			top = top.Parent()
 		}
-		// only inside Bind methods of pattern types
-		if top.Name() != "Bind" || top.Signature.Recv() == nil {
-			continue
-		}
-		rt := top.Signature.Recv().Type()
-		if !(types.Implements(rt, it) || types.Implements(types.NewPointer(rt), it)) {
+		if !inPattern[top] {
 			continue
 		}
 		n := c.Call.Signature().Results().Len()
